@@ -377,5 +377,63 @@ theorem unitKineticEnergy_ok (dt : α) (a : List α) (h : a ≠ []) :
     · rw [← hl, hk]; simp [absL, length_diffFrom]
     · exact cumsumFrom_pairwise 0 _ (mem_absL_nonneg _)
 
+/-! ### zero padding of the unit-kinetic-energy series -/
+
+theorem diffFrom_replicate_self (f : α) (m : Nat) : diffFrom f (List.replicate m f) = List.replicate m 0 := by
+  induction m with
+  | zero => rfl
+  | succ k ih => simp only [List.replicate_succ, diffFrom, sub_self, ih]
+
+theorem diffFrom_pad (p f : α) (l : List α) (m : Nat) (h : (p :: l).getLast (by simp) = f) :
+    diffFrom p (l ++ List.replicate m f) = diffFrom p l ++ List.replicate m 0 := by
+  induction l generalizing p with
+  | nil =>
+    simp only [List.getLast_singleton] at h
+    subst h
+    simp [diffFrom, diffFrom_replicate_self]
+  | cons y ys ih =>
+    have h' : (y :: ys).getLast (by simp) = f := by
+      rw [List.getLast_cons (by simp)] at h; exact h
+    simp only [List.cons_append, diffFrom, ih y h']
+
+theorem velocity_pad (dt : α) (a : List α) (m : Nat) (h : a.getLast? = some 0) :
+    ∃ f, (velocity dt a).getLast? = some f ∧
+      velocity dt (a ++ List.replicate m 0) = velocity dt a ++ List.replicate m f := by
+  simp only [velocity, veloDispTrap]
+  exact cumtrapz_pad dt a m h
+
+/-- C09.d for unit kinetic energy: after the record has ended at zero the velocity is constant, so the
+series continues with its final value -/
+theorem unitKineticEnergy_pad (dt : α) (a : List α) (m : Nat) (h : a.getLast? = some 0) :
+    ∃ s f, unitKineticEnergy dt a = .ok s ∧ s.getLast? = some f ∧
+      unitKineticEnergy dt (a ++ List.replicate m 0) = .ok (s ++ List.replicate m f) := by
+  obtain ⟨vf, hv1, hv2⟩ := velocity_pad dt a m h
+  have hkin : kinEnergy (velocity dt a ++ List.replicate m vf) =
+      kinEnergy (velocity dt a) ++ List.replicate m ((1 / 2 : α) * vf * absv vf) := by
+    simp [kinEnergy]
+  have hklast : (kinEnergy (velocity dt a)).getLast? = some ((1 / 2 : α) * vf * absv vf) := by
+    simp [kinEnergy, List.getLast?_map, hv1]
+  unfold unitKineticEnergy
+  rw [hv2, hkin]
+  cases hk : kinEnergy (velocity dt a) with
+  | nil => rw [hk] at hklast; simp at hklast
+  | cons k0 ks =>
+    rw [hk] at hklast
+    have hl : ((0 : α) :: k0 :: ks).getLast (by simp) = (1 / 2 : α) * vf * absv vf := by
+      rw [List.getLast_cons (by simp)]
+      rw [List.getLast?_eq_some_getLast (by simp)] at hklast
+      exact Option.some.inj hklast
+    have e : (k0 :: ks) ++ List.replicate m ((1 / 2 : α) * vf * absv vf) =
+        k0 :: (ks ++ List.replicate m ((1 / 2 : α) * vf * absv vf)) := rfl
+    rw [e, cumAbsDelta_cons, cumAbsDelta_cons, ← e, diffFrom_pad 0 _ (k0 :: ks) m hl, absL_pad, cumsum_pad]
+    have hne : cumsum (absL (diffFrom 0 (k0 :: ks))) ≠ [] := by
+      intro h0
+      have := congrArg List.length h0
+      simp [absL, length_diffFrom] at this
+    refine ⟨_, (cumsum (absL (diffFrom 0 (k0 :: ks)))).getLast hne, rfl,
+      List.getLast?_eq_some_getLast hne, ?_⟩
+    rw [List.getLast?_eq_some_getLast hne]
+    rfl
+
 end Ordered
 end EqsigVerif.Lemmas.Im
